@@ -51,6 +51,10 @@ pub(crate) mod verif_probe {
         p
     }
 
+    pub(crate) fn set_config(cfg: Config) {
+        CONFIG.store(Arc::new(cfg));
+    }
+
     pub(crate) fn handle(op: &str, v: &Value) -> Option<Value> {
         match op {
             "pool_validate" => {
